@@ -602,3 +602,159 @@ Proof.
     eapply okT_mono; [apply replay_finish_total; exact A1|].
     cbv beta. intros sr Hsr Hn. apply Hsr, P1. split; [exact Hvals|exact Hn].
 Qed.
+
+(** * Every step *)
+
+(** admissibility of an ACCEPTED input: the validator sets it carries have non-zero total power,
+    and a replayed commit proof's round is a uint32 (it is one in Go; the model's [N] is wider) *)
+Definition op_wf (o : op) : Prop :=
+  match o with
+  | OpPH p => hdr_wf (ph_hdr p)
+  | OpReplay x cp => pow_ok (hd_next x) /\ cp_round cp < two32
+  | _ => True
+  end.
+
+Definition replay_round_bounded (o : op) : Prop :=
+  match o with OpReplay _ cp => cp_round cp < two32 | _ => True end.
+
+Lemma op_wf_round_bounded o : op_wf o -> replay_round_bounded o.
+Proof. destruct o; cbn; tauto. Qed.
+
+Lemma step_total ih ivs s o :
+  INV ih ivs s -> tinv s -> replay_round_bounded o ->
+  match o with
+  | OpReplay x cp =>
+      (okT (fun sr => op_wf o -> tinv (fst sr)) (step s o) /\
+       replay_earlier_guard s x cp = false /\ replay_refused_guard s x cp = false) \/
+      (replay_earlier_guard s x cp = true /\ step s o = Panic site_replay_earlier) \/
+      (replay_refused_guard s x cp = true /\ step s o = Panic site_replay_refused)
+  | _ => okT (fun sr => op_wf o -> tinv (fst sr)) (step s o)
+  end.
+Proof.
+  intros HI HT Hb. destruct o as [p|m|m|x cp]; cbn [step op_wf].
+  - apply handle_ph_total; exact HT.
+  - eapply okT_mono; [apply handle_votes_total; exact HT|]. cbv beta. intros sr H _. exact H.
+  - eapply okT_mono; [apply handle_votes_total; exact HT|]. cbv beta. intros sr H _. exact H.
+  - destruct (handle_replay_total ih ivs s x cp HI HT Hb) as [(H&G1&G2)|[H|H]].
+    + left. split; [|split; assumption]. eapply okT_mono; [exact H|]. cbv beta. intros sr Hsr [Hn _]. apply Hsr, Hn.
+    + right; left; exact H.
+    + right; right; exact H.
+Qed.
+
+Lemma tinv_step ih ivs s o s' r :
+  INV ih ivs s -> tinv s -> op_wf o -> step s o = Ok (s', r) -> tinv s'.
+Proof.
+  intros HI HT Hw Hs.
+  pose proof (step_total ih ivs s o HI HT (op_wf_round_bounded o Hw)) as H.
+  assert (G : okT (fun sr => op_wf o -> tinv (fst sr)) (step s o) -> tinv s').
+  { intros (x&E&Hx). rewrite Hs in E. inversion E; subst x. exact (Hx Hw). }
+  destruct o as [p|m|m|x cp]; try (apply G; exact H).
+  destruct H as [(H&_)|[(_&H)|(_&H)]]; [apply G; exact H| |]; rewrite Hs in H; discriminate.
+Qed.
+
+Lemma tinv_init ih ivs : pow_ok ivs -> tinv (init_state ih ivs).
+Proof.
+  intros H. pose proof (pow_ok_range _ H) as Hr.
+  unfold tinv, aok, pok, init_state. cbn.
+  split; [split; [exact Hr|split; [exact Hr|intros ch E; discriminate]]|intros p [[]|[]]].
+Qed.
+
+(** states reachable through admissible inputs *)
+Inductive reachable_a (ih : N) (ivs : valset) : kstate -> Prop :=
+| ra_init : reachable_a ih ivs (init_state ih ivs)
+| ra_step s o s' res : reachable_a ih ivs s -> op_bounded o -> op_wf o ->
+    step s o = Ok (s', res) -> reachable_a ih ivs s'.
+
+Lemma reachable_a_b ih ivs s : reachable_a ih ivs s -> reachable_b ih ivs s.
+Proof. induction 1; [apply rb_init|eapply rb_step; eassumption]. Qed.
+
+Theorem reachable_tinv ih ivs s :
+  1 <= ih -> vs_ok ivs = true -> pow_ok ivs -> reachable_a ih ivs s -> tinv s.
+Proof.
+  intros Hi Hok Hp. induction 1 as [|s o s' res Hr IH Hb Hw Hs]; [apply tinv_init; exact Hp|].
+  eapply tinv_step; try eassumption.
+  apply reachable_INV; [exact Hi|exact Hok|apply reachable_a_b; exact Hr].
+Qed.
+
+(** ** The theorem *)
+Theorem kernel_messages_never_panic ih ivs s o :
+  1 <= ih -> vs_ok ivs = true -> 0 < sum_pows (vs_pows ivs) ->
+  reachable_a ih ivs s -> replay_round_bounded o ->
+  match o with
+  | OpPH _ | OpPrevote _ | OpPrecommit _ => exists s' r, step s o = Ok (s', r)
+  | OpReplay x cp =>
+      ((exists s' r, step s o = Ok (s', r)) /\
+       replay_earlier_guard s x cp = false /\ replay_refused_guard s x cp = false) \/
+      (replay_earlier_guard s x cp = true /\ step s o = Panic site_replay_earlier) \/
+      (replay_refused_guard s x cp = true /\ step s o = Panic site_replay_refused)
+  end.
+Proof.
+  intros Hi Hok Hp Hr Hb.
+  pose proof (reachable_tinv ih ivs s Hi Hok Hp Hr) as HT.
+  pose proof (reachable_INV ih ivs s Hi Hok (reachable_a_b _ _ _ Hr)) as HI.
+  pose proof (step_total ih ivs s o HI HT Hb) as H.
+  assert (G : okT (fun sr => op_wf o -> tinv (fst sr)) (step s o) -> exists s' r, step s o = Ok (s', r)).
+  { intros ([s' r]&E&_). exists s', r. exact E. }
+  destruct o as [p|m|m|x cp]; try (apply G; exact H).
+  destruct H as [(H&G1&G2)|[H|H]]; [left; split; [apply G; exact H|split; assumption]|right; left; exact H|right; right; exact H].
+Qed.
+
+(** The same for any state satisfying the two invariants (e.g. a [reachable_b] state that happens
+    to satisfy [tinv]). *)
+Theorem kernel_total_in_good_states ih ivs s o :
+  INV ih ivs s -> tinv s -> replay_round_bounded o ->
+  match o with
+  | OpReplay x cp =>
+      (exists s' r, step s o = Ok (s', r)) \/
+      step s o = Panic site_replay_earlier \/ step s o = Panic site_replay_refused
+  | _ => exists s' r, step s o = Ok (s', r)
+  end.
+Proof.
+  intros HI HT Hb. pose proof (step_total ih ivs s o HI HT Hb) as H.
+  assert (G : okT (fun sr => op_wf o -> tinv (fst sr)) (step s o) -> exists s' r, step s o = Ok (s', r)).
+  { intros ([s' r]&E&_). exists s', r. exact E. }
+  destruct o as [p|m|m|x cp]; try (apply G; exact H).
+  destruct H as [(H&_)|[(_&H)|(_&H)]]; [left; apply G; exact H|right; left; exact H|right; right; exact H].
+Qed.
+
+(** ** The guards are exact: whenever a guard holds the handler panics at that site *)
+Lemma replay_earlier_panics s x cp :
+  replay_earlier_guard s x cp = true -> step s (OpReplay x cp) = Panic site_replay_earlier.
+Proof.
+  unfold replay_earlier_guard. intros H. apply andb_true_iff in H as [H1 H2].
+  cbn [step]. rewrite handle_replay_eq. unfold handle_replay'. rewrite H1, H2. reflexivity.
+Qed.
+
+Lemma replay_refused_panics ih ivs s x cp :
+  1 <= ih -> vs_ok ivs = true -> 0 < sum_pows (vs_pows ivs) -> reachable_a ih ivs s ->
+  cp_round cp < two32 ->
+  replay_refused_guard s x cp = true -> step s (OpReplay x cp) = Panic site_replay_refused.
+Proof.
+  intros Hi Hok Hp Hr Hb G.
+  destruct (kernel_messages_never_panic ih ivs s (OpReplay x cp) Hi Hok Hp Hr Hb) as [(_&_&G2)|[(G1&_)|(_&H)]].
+  - rewrite G in G2. discriminate.
+  - exfalso. unfold replay_earlier_guard, replay_refused_guard in *.
+    apply andb_true_iff in G1 as [_ G1]. apply N.ltb_lt in G1.
+    repeat (apply andb_true_iff in G as [G ?]). apply N.leb_le in H1. lia.
+  - exact H.
+Qed.
+
+(** ** The "out of fuel" site of the model is unreachable *)
+Theorem replay_fuel_site_unreachable ih ivs s x cp :
+  1 <= ih -> vs_ok ivs = true -> reachable_b ih ivs s ->
+  hd_height x = v_h (k_vot s) -> v_r (k_vot s) <= cp_round cp -> cp_round cp < two32 ->
+  negb ((v_r (k_vot (replay_jumped s cp)) =? cp_round cp) && (v_h (k_vot (replay_jumped s cp)) =? hd_height x)) = false.
+Proof.
+  intros Hi Hok Hr Hh Hle Hb.
+  destruct (replay_jumped_reaches ih ivs s cp (reachable_cinv ih ivs s Hi Hok Hr) Hle Hb) as [E1 E2].
+  rewrite E1, E2, Hh, !N.eqb_refl. reflexivity.
+Qed.
+
+Theorem replay_never_out_of_fuel ih ivs s x cp :
+  1 <= ih -> vs_ok ivs = true -> 0 < sum_pows (vs_pows ivs) -> reachable_a ih ivs s ->
+  cp_round cp < two32 -> step s (OpReplay x cp) <> Panic site_replay_fuel.
+Proof.
+  intros Hi Hok Hp Hr Hb E.
+  destruct (kernel_messages_never_panic ih ivs s (OpReplay x cp) Hi Hok Hp Hr Hb) as [((s'&r&H)&_)|[(_&H)|(_&H)]];
+    rewrite H in E; [discriminate| |]; unfold site_replay_earlier, site_replay_refused, site_replay_fuel in E; discriminate.
+Qed.
